@@ -1,4 +1,4 @@
-(* verif driver: runs the EXTRACTED Coq model / specification oracles on the same case lines
+(* prelude, textually prepended to every <area>.ml. verif driver: runs the EXTRACTED Coq model / specification oracles on the same case lines
    as the Rust harness.  stdin: `<id> <kind> <args...>`; stdout: `<id> <canonical observation>`.
    zarith is used only to convert decimal text <-> the extracted inductive Z/N/positive. *)
 module BZ = Z
@@ -24,22 +24,7 @@ let cn_of_string s = cn_of_z (BZ.of_string s)
 let string_of_cn c = BZ.to_string (z_of_cn c)
 let rec nat_of_int i = if i <= 0 then O else S (nat_of_int (i - 1))
 
-(* ---- case kinds ---- *)
-let run_add args =
-  match args with
-  | [w; x; y] ->
-    let wz = if w = "size" then "64" else w in
-    (match Model.checked_add_signed (cz_of_string wz) (cz_of_string x) (cz_of_string y) with
-     | Some v -> "some " ^ string_of_cz v
-     | None -> "none")
-  | _ -> "bad-args"
-
-let dispatch kind args =
-  match kind with
-  | "add" -> run_add args
-  | _ -> "unknown-kind " ^ kind
-
-let () =
+let main_loop dispatch =
   try
     while true do
       let line = input_line stdin in
